@@ -80,10 +80,19 @@ Definition callout_flat (c : callout_t) : N :=
   + match last_pce (c_subs c) with Some p => p_size p | None => 0 end
   + match last_mru (c_subs c) with Some m => m_size m | None => 0 end.
 
-Definition parse_callout (fuel : nat) : reader (option callout_t) :=
+Definition remaining : reader nat := fun s => Some (length s, s).
+
+(* the substructure loop consumes at least four bytes per iteration: the remaining length bounds it *)
+Definition callout_head : reader (N * N * N * bytes) :=
   sz <- get_int 1 ;; fl <- get_int 1 ;; pr <- get_int 1 ;; ll <- get_int 1 ;;
   loc <- (if 0 <? ll then get_memN ll else ret []) ;;
-  subs <- parse_subs fuel sz (4 + ll) [] ;;
+  ret (sz, fl, pr, loc).
+
+Definition parse_callout : reader (option callout_t) :=
+  hd <- callout_head ;;
+  let '(sz, fl, pr, loc) := hd in
+  n <- remaining ;;
+  subs <- parse_subs (S n) sz (4 + N.of_nat (length loc)) [] ;;
   match subs with
   | None => ret None
   | Some ss => ret (Some {| c_size := sz; c_flags := fl; c_prio := pr; c_loc := loc; c_subs := ss |})
@@ -94,7 +103,7 @@ Fixpoint parse_callout_list (fuel : nat) (wlen4 cur : N) (acc : list callout_t) 
   | O => ret None
   | S f =>
       if cur <? wlen4 then
-        c <- parse_callout f ;;
+        c <- parse_callout ;;
         match c with
         | None => ret None
         | Some c => parse_callout_list f wlen4 (cur + callout_flat c) (c :: acc)
@@ -102,12 +111,10 @@ Fixpoint parse_callout_list (fuel : nat) (wlen4 cur : N) (acc : list callout_t) 
       else ret (Some (rev acc))
   end.
 
-Definition remaining : reader nat := fun s => Some (length s, s).
-
+(* every callout adds at least 4 to the running length, so the declared word length bounds the number of callouts *)
 Definition parse_callouts : reader (option callouts_t) :=
   id <- get_int 1 ;; fl <- get_int 1 ;; wl <- get_int 2 ;;
-  n <- remaining ;;
-  l <- parse_callout_list (n + 4) (wl * 4) 4 [] ;;
+  l <- parse_callout_list (N.to_nat wl + 4) (wl * 4) 4 [] ;;
   match l with
   | None => ret None
   | Some l => ret (Some {| cs_id := id; cs_flags := fl; cs_wlen := wl; cs_list := l |})
